@@ -46,10 +46,14 @@ impl SharedSystem {
     }
 
     pub async fn read(&self) -> RwLockReadGuard<System> {
+        #[cfg(feature = "iggy_verif")]
+        iggy::verif::yield_point("system_lock_read").await;
         self.system.read().await
     }
 
     pub async fn write(&self) -> RwLockWriteGuard<System> {
+        #[cfg(feature = "iggy_verif")]
+        iggy::verif::yield_point("system_lock_write").await;
         self.system.write().await
     }
 }
